@@ -50,52 +50,6 @@ theorem escapeName_eq_escapeSeg (s : Str) : escapeName s = escapeSeg false s := 
     · rfl
     · rw [escapeFrom_eq_body]; simp
 
-/-- clean, with the trailing backslash allowed for a last segment -/
-theorem clean_escapeFrom' (last e : Bool) : ∀ (s : Str) (p : Bool),
-    (last = true ∨ s.getLast? ≠ some '\\') → cleanB last (escapeFrom e p s) = true
-  | [], p, _ => by rw [escapeFrom_nil]; exact cleanB_nil' last
-  | c :: r, p, hl => by
-    have hl' : last = true ∨ r.getLast? ≠ some '\\' := by
-      rcases hl with h | h
-      · exact Or.inl h
-      · exact Or.inr (getLast_tail c r h)
-    have ih := fun p' => clean_escapeFrom' last e r p' hl'
-    rw [escapeFrom_cons]
-    by_cases hx : escNow e p c = true
-    · simp only [hx, if_true, List.cons_append, List.nil_append]
-      rw [cleanB_cons]
-      simp only [if_true]
-      by_cases he : isEscapable c = true
-      · simp only [he, if_true]; exact ih _
-      · simp only [he, Bool.false_eq_true, if_false]
-        rw [cleanB_cons]
-        have hc1 : c ≠ '\\' := by
-          intro e1; subst e1; simp [escNow] at hx
-        have hc2 : (c == '/' || c == '[') = false := by
-          simp only [isEscapable, Bool.or_eq_true, beq_iff_eq, not_or] at he
-          simp [he.1.1, he.2]
-        simp [hc1, hc2, ih]
-    · simp only [hx, Bool.false_eq_true, if_false, List.cons_append, List.nil_append]
-      rw [cleanB_cons]
-      by_cases hb : c = '\\'
-      · subst hb
-        simp only [if_true, beq_self_eq_true]
-        cases r with
-        | nil =>
-          rw [escapeFrom_nil]
-          rcases hl with h | h
-          · exact h
-          · simp at h
-        | cons d r' =>
-          obtain ⟨h, tl, heq, hne, _⟩ := escapeFrom_head e d r'
-          have := ih true
-          rw [heq] at this ⊢
-          simp only [hne, Bool.false_eq_true, if_false]
-          exact this
-      · simp only [hb, if_false]
-        simp only [escNow, Bool.or_eq_true, beq_iff_eq, not_or] at hx
-        simp [hx.1.1, hx.1.2, ih]
-
 /-- the facts the scanner lemma needs about an escaped field name: non-empty names only;
     `last = false` additionally needs the name not to end in a backslash -/
 theorem escapeName_facts (last : Bool) (s : Str) (hne : s ≠ [])
